@@ -9,3 +9,36 @@ pub fn nonce_increment(b: &[u8]) -> Vec<u8> {
     n.increment();
     n.0.to_vec()
 }
+
+pub fn set_send_nonce(core: &mut CryptoCore, slot: usize, b: &[u8]) {
+    core.keys[slot].send_nonce.0.copy_from_slice(b);
+}
+
+pub fn half_byte(core: &CryptoCore) -> u8 {
+    if core.nonce_half {
+        0x80
+    } else {
+        0x00
+    }
+}
+
+/// (current_key, [(send, min, next_min, seen); 4])
+pub fn dump(core: &CryptoCore) -> (usize, Vec<(Vec<u8>, Vec<u8>, Vec<u8>, Vec<u8>)>) {
+    (
+        core.current_key,
+        core.keys
+            .iter()
+            .map(|k| (k.send_nonce.0.to_vec(), k.min_nonce.0.to_vec(), k.next_min_nonce.0.to_vec(), k.seen_nonce.0.to_vec()))
+            .collect(),
+    )
+}
+
+pub fn nonce_half(core: &CryptoCore) -> bool {
+    core.nonce_half
+}
+
+pub fn current_key(core: &CryptoCore) -> usize {
+    core.current_key
+}
+
+pub use super::{create_dummy_pair, CryptoCore};
